@@ -383,7 +383,17 @@ func (e *Engine) contentOf(st *state, v *Val) *Val {
 	if v == nil {
 		return v
 	}
+	if v.Op == "slice" {
+		if c, ok := st.content[v.Key()]; ok {
+			return c // content recorded for this very slice value (e.g. filled by a loop)
+		}
+	}
 	switch v.Op {
+	case "bufnext":
+		if len(v.Args) == 3 {
+			return v.Args[2]
+		}
+		return v
 	case "makeslice":
 		if c, ok := st.content[v.Key()]; ok {
 			return c
@@ -708,6 +718,10 @@ func (e *Engine) execLoop(st *state, fr *frame, h, prev *ssa.BasicBlock, body ma
 		if pi.init == nil {
 			pi.init = &Val{Op: "unknown", ID: e.id(), Name: "phi-init", Type: phi.Type()}
 		}
+		if _, isSlice := phi.Type().Underlying().(*types.Slice); isSlice {
+			// a slice carried round the loop (narrowed step by step): what matters is the bytes it holds on entry
+			pi.init = e.contentOf(st, pi.init)
+		}
 		name := phi.Comment
 		if name == "" {
 			name = phi.Name()
@@ -783,6 +797,23 @@ func (e *Engine) execLoop(st *state, fr *frame, h, prev *ssa.BasicBlock, body ma
 	}
 	// trip count
 	count, bounded := e.tripCount(h, ifr, lc, iters)
+	if bounded == "" && len(iters) > 0 {
+		// a slice that loses at least one element on every iteration: at most len(initial slice) iterations
+		for _, pi := range phis {
+			if _, isSlice := pi.phi.Type().Underlying().(*types.Slice); !isSlice {
+				continue
+			}
+			all := true
+			for _, it := range iters {
+				if !narrows(it.Next[pi.lv.Name], pi.lv) {
+					all = false
+				}
+			}
+			if all {
+				bounded = "shrinking"
+			}
+		}
+	}
 	var latchExits []*outcome
 	if guard != nil {
 		// rotated loop: exits taken from the latch after a complete iteration are the normal end of the loop
@@ -804,8 +835,19 @@ func (e *Engine) execLoop(st *state, fr *frame, h, prev *ssa.BasicBlock, body ma
 		count, bounded = c, b
 		exits = rest
 	}
+	var inv *Val
+	if lc.ctrVar != nil && lc.ctrBound != nil && (bounded == "counted" || bounded == "counted-down") {
+		// the tested expression satisfies the loop test whenever the body runs (header-tested: the test precedes the
+		// body; rotated: the guard before the first iteration, the latch test before every later one)
+		tested := affToVal(affOf(lc.ctrVar).Add(affConst(lc.ctrOff), 1))
+		op := "<"
+		if bounded == "counted-down" {
+			op = ">"
+		}
+		inv = &Val{Op: "binop", Name: op, Args: []*Val{tested, lc.ctrBound}, Type: types.Typ[types.Bool]}
+	}
 	rep := func(partial bool) *Event {
-		return &Event{ID: e.id(), Kind: EvRep, LoopID: lid, Count: count, Bounded: bounded, Iter: iters, Partial: partial, Pos: firstPos(h), Fn: fr.fn, Site: fr.site}
+		return &Event{ID: e.id(), Kind: EvRep, LoopID: lid, Count: count, Bounded: bounded, Inv: inv, Iter: iters, Partial: partial, Pos: firstPos(h), Fn: fr.fn, Site: fr.site}
 	}
 	// loop-out values of header phis
 	loopOut := map[*ssa.Phi]*Val{}
@@ -864,12 +906,16 @@ func (e *Engine) execLoop(st *state, fr *frame, h, prev *ssa.BasicBlock, body ma
 			exits = []*outcome{keep}
 		}
 	}
+	fillS, fillC := fillLoop(iters, count, lid)
 	var res []*outcome
 	if len(latchExits) > 0 {
 		o := latchExits[0]
 		nst := st.clone()
 		nst.mem = o.st.mem
 		nst.content = o.st.content
+		if fillS != nil {
+			nst.content[fillS.Key()] = fillC
+		}
 		for k, v := range o.st.allocT {
 			nst.allocT[k] = v
 		}
@@ -912,6 +958,9 @@ func (e *Engine) execLoop(st *state, fr *frame, h, prev *ssa.BasicBlock, body ma
 			nst.events = append(nst.events, o.st.events...)
 			nst.conds = append([]Cond(nil), o.st.conds...)
 		} else {
+			if fillS != nil {
+				nst.content[fillS.Key()] = fillC
+			}
 			for _, pi := range phis {
 				nfr.env[pi.phi] = loopOut[pi.phi]
 			}
@@ -1066,6 +1115,96 @@ func affToVal(a *Affine) *Val {
 }
 
 // loopOutVal describes the value of a header phi after the loop.
+// fillLoop recognises `for i := range s { s[i] = v }` (or the counted spelling over len(s)): one iteration path whose
+// only effect is the store of a loop-invariant value into element i of a slice defined outside the loop, i running
+// from 0 in steps of one, len(s) times. After the loop s holds len(s) copies of v.
+func fillLoop(iters []*Arm, count *Val, lid int) (*Val, *Val) {
+	if len(iters) != 1 || count == nil {
+		return nil, nil
+	}
+	var store *Event
+	for _, ev := range iters[0].Events {
+		switch ev.Kind {
+		case EvPanicSite:
+		case EvStore:
+			if store != nil {
+				return nil, nil
+			}
+			store = ev
+		default:
+			return nil, nil
+		}
+	}
+	if store == nil || store.Dst == nil || store.Dst.Op != "index" || len(store.Dst.Args) != 2 {
+		return nil, nil
+	}
+	S, idx := store.Dst.Args[0], store.Dst.Args[1]
+	isLV := func(x *Val) bool { return x.Op == "loopvar" && x.ID == lid }
+	if S.Contains(isLV) || store.Src == nil || store.Src.Contains(func(x *Val) bool { return isLV(x) || x.Op == "wire" || x.Op == "elem" }) {
+		return nil, nil
+	}
+	if _, isSlice := S.Type.Underlying().(*types.Slice); S.Type == nil || !isSlice {
+		return nil, nil
+	}
+	a := affOf(idx)
+	if a.Top || len(a.Term) != 1 {
+		return nil, nil
+	}
+	var lv *Val
+	for k, c := range a.Term {
+		if c != 1 {
+			return nil, nil
+		}
+		lv = a.Sym[k]
+	}
+	if !isLV(lv) || len(lv.Args) != 1 {
+		return nil, nil
+	}
+	init, isC := lv.Args[0].Int64()
+	if !isC || init+a.C != 0 {
+		return nil, nil
+	}
+	next := iters[0].Next[lv.Name]
+	if next == nil {
+		return nil, nil
+	}
+	if k, ok := affOf(next).Add(affOf(lv), -1).IsConst(); !ok || k != 1 {
+		return nil, nil
+	}
+	if !affOf(count).Equal(affOf(mkLen(S))) {
+		return nil, nil
+	}
+	c := &Val{Op: "call", Name: "bytes.Repeat", Args: []*Val{{Op: "arraylit", Args: []*Val{store.Src}}, count}, Type: S.Type}
+	return S, c
+}
+
+// narrows: next is lv[k:] or lv[:len(lv)-k] with a constant k >= 1.
+func narrows(next, lv *Val) bool {
+	if next == nil || next.Op != "slice" || len(next.Args) < 4 || next.Args[0].Key() != lv.Key() || next.Args[3] != nil {
+		return false
+	}
+	lo, hi := next.Args[1], next.Args[2]
+	L := affOf(mkLen(lv))
+	loK := int64(0)
+	if lo != nil {
+		k, ok := lo.Int64()
+		if !ok || k < 0 {
+			return false
+		}
+		loK = k
+	}
+	hiK := int64(0)
+	if hi != nil {
+		d := L.Add(affOf(hi), -1) // len(lv) - hi
+		k, ok := d.IsConst()
+		if !ok || k < 0 {
+			return false
+		}
+		hiK = k
+	}
+	return loK+hiK >= 1
+}
+
 func (e *Engine) loopOutVal(phi *ssa.Phi, init, lv *Val, iters []*Arm, count *Val, lid int, lc *loopCtx) *Val {
 	// append accumulation: next = append(lv, elems)
 	if len(iters) > 0 {
